@@ -24,6 +24,7 @@
 import AxVerif.Model.Step
 import AxVerif.Props.C05
 import AxVerif.Props.C07
+import AxVerif.Props.C01
 namespace Ax.C20
 open Ax
 
@@ -201,6 +202,39 @@ theorem set_is_api (rs : Regs) (i : Fin 16) (v : BitVec 64) : regWriteW rs 64 (.
 /-- and the model is a function: equal machines, hooks and decoder answers give equal steps -/
 theorem step_function (hooks : HookTable) (decode) (s1 s2 : Machine) (h : s1 = s2) :
     step hooks decode s1 = step hooks decode s2 := by rw [h]
+
+/-! ## handler level: the 64-bit register forms of the `r/m, r` family do not look at unwritten registers -/
+
+/-- **Non-interference through the dispatch** for every table row of the `r/m64, r64` family (ADD, ADC, SUB, CMP, AND,
+    XOR, MOV) on register operands: two machines that differ only in registers never written (`U`), executing the same
+    instruction whose two operands are written registers, have the same outcome; after success their flags are equal and
+    their register files still agree outside `U` — nothing of the constructor's randomness reaches the result. -/
+theorem rmR64_noninterference (hh : HasHooks) (i : Instr) (s1 s2 : Machine) (d sr : Fin 16) (op : Op2) (set clear : BitVec 64)
+    (hrow : lookup i.code = some (.rmR 64 64 op set clear))
+    (hops : instructionOperands2 i = .ok (.register (.g64 d), .register (.g64 sr)))
+    (U : Fin 16 → Prop) (hA : AgreeOff U s1.regs s2.regs) (hd : ¬ U d) (hs : ¬ U sr) (hfl : s1.rflags = s2.rflags) :
+    (match exec hh i s1, exec hh i s2 with
+     | .ok a, .ok b => AgreeOff U a.regs b.regs ∧ a.rflags = b.rflags
+     | .err, .err => True
+     | .panic, .panic => True
+     | _, _ => False) := by
+  obtain ⟨hrip, hx, hg⟩ := hA
+  rw [C01.exec_rmR64_regs hh i s1 d sr op set clear hrow hops, C01.exec_rmR64_regs hh i s2 d sr op set clear hrow hops]
+  rw [hg d hd, hg sr hs, hfl]
+  cases setFlags (set ||| (applyOp2 op (s2.rflags &&& FLAG_CF != 0) 64 64 (s2.regs.get d) (s2.regs.get sr)).2) clear
+      ((applyOp2 op (s2.rflags &&& FLAG_CF != 0) 64 64 (s2.regs.get d) (s2.regs.get sr)).1.setWidth 64) s2.rflags with
+  | err => trivial
+  | panic => trivial
+  | ok f =>
+    by_cases hnw : (set &&& NO_WRITEBACK == 0) = true
+    · simp only [hnw, if_true, and_true]
+      refine ⟨by simpa using hrip, by simpa using hx, ?_⟩
+      intro j hj
+      by_cases hdj : d = j
+      · subst hdj; simp
+      · simp [Regs.get_set_ne _ _ _ _ hdj, hg j hj]
+    · simp only [hnw, if_false, Bool.false_eq_true, and_true]
+      exact ⟨hrip, hx, hg⟩
 
 /-! ## Non-vacuity -/
 example : AgreeOff (fun j => j = 3) (Regs.zero.set 3 5#64) (Regs.zero.set 3 9#64) := by
